@@ -435,10 +435,15 @@ func CDSRegion2fromGFF(fs []gff.Feature, refSeqDegapped string) (Region, error) 
 			if f.Strand != "+" {
 				return r, errors.New("Error parsing gff: mixed strands within a single ID")
 			}
-			for i := f.Start + f.Phase; i <= f.End; i++ {
+			for i := f.Start; i <= f.End; i++ {
 				pos = append(pos, i)
 			}
 		}
+		// only the first segment's phase offsets the reading frame: later segments continue the codons of earlier ones
+		if fs[0].Phase > len(pos) {
+			return r, errors.New("Error parsing gff: CDS shorter than its phase")
+		}
+		pos = pos[fs[0].Phase:]
 		r.Strand = 1
 		r.Positions = pos
 		r.Start = gmin(r.Positions)
@@ -458,10 +463,15 @@ func CDSRegion2fromGFF(fs []gff.Feature, refSeqDegapped string) (Region, error) 
 			if f.Strand != "-" {
 				return r, errors.New("Error parsing gff: mixed strands within a single ID")
 			}
-			for i := f.End - f.Phase; i >= f.Start; i-- {
+			for i := f.End; i >= f.Start; i-- {
 				pos = append(pos, i)
 			}
 		}
+		// only the first segment (in translation order) offsets the reading frame
+		if fs[len(fs)-1].Phase > len(pos) {
+			return r, errors.New("Error parsing gff: CDS shorter than its phase")
+		}
+		pos = pos[fs[len(fs)-1].Phase:]
 		r.Strand = -1
 		r.Positions = pos
 		r.Start = gmin(r.Positions)
